@@ -197,6 +197,12 @@ def analyse(R, runner, trace, label, count=True):
                         if f[6] == "snap": bump("peer_obs_with_snapshot_request_pending")
                         elif f[6].startswith("op:"): bump("peer_obs_with_op_request_pending")
                         if f[3] != "0" and f[-1] != "-": bump("peer_obs_nonempty_set")
+                    elif f[1] == "fwd":
+                        bump("executor_settle_points")
+                        if f[2] != "-": changed = True
+                    elif f[1] == "attempts" and f[2] != "-":
+                        nf = f[2].count("|F")
+                        bump("executor_calls", f[2].count("|ok") + nf); bump("executor_failed_calls", nf)
                     elif f[1] == "cmds" and f[2] != "-":
                         changed = True
                         bump("fib_rounds_emitting_commands")
@@ -277,7 +283,7 @@ def setup(R):
         "tables keyed by 64-bit name hashes are modelled as keyed by the name (no hash collision among the names of a history)",
         "sequence numbers do not wrap (fewer than 2^64 publications)",
         "Go map iteration order = arbitrary order: observables are compared as sets / finite maps; theorems hold for every table value and every processing order",
-        "the nfdc command stream is observed at the management queue (dv/nfdc channel); delivery of commands to the forwarder (retries, failures) is outside the model",
+        "the nfdc command stream is observed at the management queue (dv/nfdc channel) and, in executor histories, at the stand-in forwarder behind the real NfdMgmtThread.Start; commands whose retry budget is exhausted are lost (the code drops them): the forwarder-vs-desired oracle applies to histories with faults within the budget",
         "extraction: ExtrOcamlBasic only; N, positive, nat stay Coq datatypes",
     ]
     R.coverage["trusted_base"] = ["Coq kernel 8.16.1", "Coq extraction + OCaml 4.13.1", "runner/DvFib/driver.ml",
@@ -336,7 +342,7 @@ def run(R):
     R.coverage["rule"] = ("one evaluation = one generated history (case) executed on the real dv code: kind pfx = publisher "
                           "PrefixTable + 1..3 late-joining peer Routers (announce/withdraw bursts around the snapshot threshold, sync values, "
                           "answers from publisher or snapshot cache, deliveries, timeouts); kind fib = one Router whose RIB / neighbour faces / "
-                          "prefix table are changed and fibUpdate run, nfdc commands drained; kind net = table changes through the real event handlers. "
+                          "prefix table are changed and fibUpdate run, nfdc commands drained (every third one instead runs the REAL NfdMgmtThread.Start against a stand-in forwarder whose ExecMgmtCmd fails the first k attempts of chosen commands); kind net = table changes through the real event handlers. "
                           "non-trivial = at least 3 operation kinds and an observation that differs from the initial state (non-empty peer set / "
                           "route table); distinct by SHA-1 of the operation list")
     # 1. corpus first
